@@ -195,7 +195,7 @@ def multi_writer_histories(ctx, digital_rf, count, npairs=2, nvec=0):
     scen, recs = [], []
     for i in range(count):
         n, d, fc = cg.random_rate(rng, 300)
-        common_sc = i % 2 == 0
+        common_sc = (i // 2) % 2 == 0
         if common_sc:
             variants = [(fc, 4), (fc * 2, 2), (fc * 4, 1)]
         else:
@@ -215,7 +215,7 @@ def multi_writer_histories(ctx, digital_rf, count, npairs=2, nvec=0):
             shutil.rmtree(root, ignore_errors=True)
             os.makedirs(root)
             chans.append((cfg, cd.Channel(digital_rf, root, cfg, [cfg.params()]), root))
-        if rng.random() < 0.5:
+        if i % 2 == 0:
             # one after the other (a short burst each, the next channel starting inside the file period just written)
             cfg0 = chans[0][0]
             abs0 = cfg0.bound[1] + cfg0.B + rng.choice([0, 1, 2])
